@@ -168,6 +168,8 @@ class FSign:
             if n == 'from_int':
                 lb = self.int_lb(a[0])
                 return Iv(float(lb), INF)
+            if n == 'from_float':
+                return self.rng(a[0])
             if n in ('add', 'sub'):
                 x, y = self.rng(a[0]), self.rng(a[1])
                 if n == 'sub':
@@ -242,6 +244,12 @@ class FSign:
                 return Iv(min(x.lo, y.lo), min(x.hi, y.hi))
             if n == 'signum':
                 return Iv(-1.0, 1.0, nz=True)
+            return TOPI
+        if k == 'const':
+            import math as _m
+            vals = {'std::f64::consts::PI': _m.pi, 'std::f32::consts::PI': _m.pi, 'std::f64::consts::E': _m.e, 'std::f64::consts::TAU': 2 * _m.pi}
+            if t[1] in vals:
+                return point(vals[t[1]])
             return TOPI
         if k == 'phi':
             return self.rng(t[2]).hull(self.rng(t[3]))
